@@ -43,7 +43,9 @@ def gen_rules(r, n, incdir=None):
         elif k == 9:
             rules.append(("noback correct \"%s\" \"%s\"" % (chr(r.choice(letters)) + chr(r.choice(letters)), chr(r.choice(letters))), True))
         else:
-            rules.append((r.choice(["always ab 9z", "nosuchopcode a 1", "letter ab 1", "always"]), False))
+            rules.append((r.choice(["always ab 9z", "nosuchopcode a 1", "letter ab 1", "always", "always ab", "pass2 @1", "include", "display a",
+                                    # first words that mean something at the top of a FILE (encoding headers of dictionaries)
+                                    "UTF-8 x 1", "ISO-8859-1", "UTF-8", "ISOLATIN a 1"]), False))
     return rules
 
 
@@ -98,7 +100,16 @@ def run(chk):
             exp_ret.append(ok)
         nadd = len(lines)
         lines += ["Y %s ;; %s" % (base, c) for c in tcases]
-        lines.append("K %s | always abc 1" % base)              # finalised now: must be rejected
+        # finalised now: every further rule must be rejected AND leave no trace - neither in the translation nor in the
+        # display mappings (probed with lou_charToDots / lou_dotsToChar on the characters and cells the late rules name)
+        late_inc = work / "inclate.uti"
+        late_inc.write_text("sign \\x2473 1234568\n")
+        late_rules = ["always abc 1", "sign \\x2470 1234567", "display \\x2471 12345678", "include %s" % late_inc, "letter \\x2472 2345678"]
+        probes = ["Y %s ;; %s" % (base, trans.case_line("C", 0, [0x2470, 0x2471, 0x2472, 0x2473, 97], 5)),
+                  "Y %s ;; %s" % (base, trans.case_line("D", 0, [0x807f, 0x80ff, 0x80fe, 0x80bf, 0x8001], 5))]
+        lines += probes
+        lines += ["K %s | %s" % (base, t) for t in late_rules]
+        lines += probes
         lines += ["Y %s ;; %s" % (base, tcases[0])]
         lines += ["Y %s ;; %s" % (other, trans.case_line("T", 4, [97, 98], 10))]
         # every other sequence with the image moved to a fresh block on every arena allocation (hook): pointers into the
@@ -136,11 +147,19 @@ def run(chk):
                           % (len(accepted), str(sig(bad[0][1]))[:200], str(sig(bad[0][2]))[:200]),
                           dict(base=base.read_text(), accepted_rules=accepted, case_line=bad[0][0]))
             continue
-        late = outs[nadd + len(tcases)]
-        if int(late.split()[1]) != 0:
-            chk.violation("finalized-accepts", "lou_compileString returned 1 after the table had been used for translation", dict(base=base.read_text()))
+        p0 = nadd + len(tcases)
+        late = outs[p0 + 2:p0 + 2 + len(late_rules)]
+        if any(int(o.split()[1]) != 0 for o in late):
+            chk.violation("finalized-accepts", "lou_compileString returned 1 after the table had been used for translation: %s"
+                          % [t for t, o in zip(late_rules, late) if int(o.split()[1]) != 0], dict(base=base.read_text()))
             continue
-        if sig(outs[nadd + len(tcases) + 1]) != sig(got[0]):
+        after = outs[p0 + 2 + len(late_rules):p0 + 4 + len(late_rules)]
+        if [sig(o) for o in after] != [sig(o) for o in outs[p0:p0 + 2]]:
+            chk.violation("rejected-addition-had-effect", "rules refused because the table is finalised changed the display mappings: lou_charToDots / "
+                          "lou_dotsToChar before %s, after %s" % ([sig(o)[1] for o in outs[p0:p0 + 2]], [sig(o)[1] for o in after]),
+                          dict(base=base.read_text(), accepted_rules=accepted, late_rules=late_rules, commands=lines[p0:p0 + 4 + len(late_rules)]))
+            continue
+        if sig(outs[p0 + 4 + len(late_rules)]) != sig(got[0]):
             chk.violation("rejected-addition-had-effect", "a rejected addition changed the result", dict(base=base.read_text(), accepted_rules=accepted))
             continue
         oth = outs[-1]
